@@ -84,10 +84,10 @@ def gen_block(rng, level, nlevels, depth, budget, in_call=False, nosusp=False):
         budget[0] -= 1
         r = rng.random()
         if nosusp:
-            if r < 0.52:
-                r = 0.55 + rng.random() * 0.45
-            if 0.68 <= r < 0.73:      # no `return` either: it would swallow the GeneratorExit
-                r = 0.55
+            # only logging: neither suspension nor a new exception nor `return` may replace the
+            # GeneratorExit that is closing this nested frame
+            out.append(("L", rng.randint(1, 9)))
+            continue
         if r < 0.28:
             if rng.random() < 0.88:
                 m = rng.randint(0, level) if rng.random() < 0.5 else level
@@ -552,6 +552,8 @@ def oracle(olog, tags):
                 # close() of the suspended call: a clean exit (return / GeneratorExit) is `None`
                 tags.add("closed-cleanly" if (k == "bodyret" or x == "GeneratorExit") else "exception-on-close")
                 exp = ("ret", m, 0, 0) if (k == "bodyret" or x == "GeneratorExit") else ("exc", m, x, 0)
+                if str(x).startswith("OOBData"):
+                    continue
                 if exp[:3] == ("exc", m, "StopIteration"):
                     exp = ("exc", m, "RuntimeError", 0)          # PEP 479
                 if nxt != exp:
